@@ -234,12 +234,18 @@ def argIn (G : LGraph) (cur : VNode) : List Cand :=
     (G.node cur.node).ins.map fun e => { mk cur e.1 with trace := cur.trace.tail, recIdx := some e.2 }
   else []
 
-def expandArg (G : LGraph) (cfg : Cfg) (cur : VNode) : Expand :=
-  let nd := G.node cur.node
+/-- nillable argument of a call whose callee summary is missing / not constructed, eager mode:
+`ReportMissingOrNotConstructedSummary` and `break` out of the switch (nothing is pushed or reported) -/
+def argDropped (G : LGraph) (cfg : Cfg) (n : Nat) : Bool :=
+  let nd := G.node n
   let calleeOk := match (G.node nd.parent).calleeGraph with
     | some g => (G.ginfo g).constructed
     | none => false
-  if nd.nillable && !calleeOk && !cfg.onDemand then {}    -- ReportMissingOrNotConstructedSummary; `break`
+  nd.nillable && !calleeOk && !cfg.onDemand
+
+def expandArg (G : LGraph) (cfg : Cfg) (cur : VNode) : Expand :=
+  let nd := G.node cur.node
+  if argDropped G cfg cur.node then {}
   else
     { cands := argToParam G cur ++ argOut G cur ++ argIn G cur, baseIfStuck := true,
       panics := nd.nillable && (match (G.node nd.parent).calleeParam[nd.index]? with
@@ -411,6 +417,113 @@ def replayB (G : LGraph) (cfg : Cfg) (t : List Nat) : Bool :=
   match t.reverse with
   | [] => false
   | entry :: rest => (replayFrom G cfg [rootOf entry] rest).any (reportsAt G cfg)
+
+/-! ### guaranteed predecessors (what `back_visits_closure` is about)
+
+The successors of a visitor node depend on its `Prev` (which is not part of the `seen` key), so
+only the part of `expand` that is produced for EVERY `Prev` is guaranteed to be explored from a key
+(cf. F14 for the forward visitor). `gsucc` is that part, with the rejections of `addNext` that do
+not depend on the state already applied (lasso), and with a return value of a call included only
+when every edge leaving the call carries that return's tuple index (`retOk`: then whichever
+argument the call was reached from recorded exactly that index in `prevEdgeInfos`). -/
+
+def keyV (k : Key) : VNode := { node := k.1, trace := k.2.1, ctrace := k.2.2.1, skind := k.2.2.2 }
+
+/-- every edge out of call `c` (as a source in some `In()` / a target in some `Out()`) has index `j` -/
+def retOk (G : LGraph) (c : Nat) (j : Int) : Bool :=
+  (List.range G.nodes.size).all fun a =>
+    ((G.node a).ins.all fun e => e.1 != c || e.2 == j) && ((G.node a).outs.all fun e => e.1 != c || e.2 == j)
+
+/-- no in-edge and no out-edge of any node mentions argument node `a`: the only way to reach it is
+from a parameter of the callee (through the call site's argument list), and then the guard of the
+`In()` loop of the CallNodeArg case (`argInOk`) holds. -/
+def argOnlyFromParam (G : LGraph) (a : Nat) : Bool :=
+  (List.range G.nodes.size).all fun m =>
+    ((G.node m).ins.all fun e => e.1 != a) && ((G.node m).outs.all fun e => e.1 != a)
+
+def argInAll (G : LGraph) (cur : VNode) : List Cand :=
+  (G.node cur.node).ins.map fun e => { mk cur e.1 with trace := cur.trace.tail, recIdx := some e.2 }
+
+def gcands (G : LGraph) (cfg : Cfg) (v : VNode) : List Cand :=
+  let nd := G.node v.node
+  if !(G.ginfo nd.graph).constructed && !cfg.onDemand then []
+  else if isBase G cfg v.node then []
+  else match nd.kind with
+  | .param =>
+    match unwind G nd.graph v.trace with
+    | some cs => match argAt G cs nd.index with
+      | some a => [mk v a]
+      | none => []
+    | none => callsiteCands G v
+  | .arg => if argDropped G cfg v.node then []
+      else argToParam G v ++ argOut G v ++ (if argOnlyFromParam G v.node then argInAll G v else [])
+  | .ret | .synth | .gwrite => inCands G v
+  | .call =>
+    ((G.node v.node).rets.filter fun r => retOk G v.node (G.node r).index).map (retCand v) ++
+      (inCands G v).filter fun c => G.kind c.node != .ret
+  | .gread => nd.writes.map fun w => { mk v w with trace := [] }
+  | .boundVar => (expandBoundVar G v).cands
+  | .freeVar =>
+    match v.ctrace with
+    | [] => (G.ginfo nd.graph).refClosures.filterMap fun c =>
+        ((G.node c).bvs[nd.index]?).map fun bv => { mk v bv with ctrace := [] }
+    | _ :: _ => []
+  | .closure => nd.bvs.map (mk v)
+  | .boundLabel => if cfg.skipBoundLabels then [] else inCands G v
+  | .ifn => []
+
+/-- nodes at which the traversal reports whatever the state: `isBaseCase` nodes, and argument nodes
+with no predecessor at all (constants passed to calls). -/
+def staticLeaf (G : LGraph) (cfg : Cfg) (n : Nat) : Bool :=
+  ((G.ginfo (G.graphOf n)).constructed || cfg.onDemand) &&
+  (isBase G cfg n ||
+    (G.kind n == .arg && (G.node n).ins.isEmpty && !(G.node n).nillable && !(G.node n).bound))
+
+def okKey (k : Key) : Bool := !lasso k.2.1 && !lasso k.2.2.1
+
+/-- the tuple filter of `addNext` concerns return nodes only; outside the call case a candidate
+that is a return node (never the case in a real graph) is not counted as guaranteed -/
+def notRetUnlessCall (G : LGraph) (v : VNode) (c : Cand) : Bool :=
+  G.kind v.node == .call || G.kind c.node != .ret
+
+/-- guaranteed successor keys of a key -/
+def gsucc (G : LGraph) (cfg : Cfg) (k : Key) : List Key :=
+  (((gcands G cfg (keyV k)).filter (notRetUnlessCall G (keyV k))).map Cand.key).filter okKey
+
+/-- successor keys of the root visitor node (its `Prev` is nil, so everything counts) -/
+def rsucc (G : LGraph) (cfg : Cfg) (entry : Nat) : List Key :=
+  if !(G.ginfo (G.graphOf entry)).constructed && !cfg.onDemand then []
+  else if isBase G cfg entry then []
+  else (((expand G cfg [] (rootOf entry)).cands.map Cand.key).filter okKey)
+
+/-- worklist closure of `gsucc` from `rsucc entry` (fuel = number of expansions) -/
+def greachLoop (G : LGraph) (cfg : Cfg) : Nat → List Key → List Key → List Key
+  | 0, _, acc => acc
+  | _ + 1, [], acc => acc
+  | fuel + 1, k :: todo, acc =>
+    let new := ((gsucc G cfg k).filter fun k' => !acc.contains k').eraseDups
+    greachLoop G cfg fuel (new ++ todo) (acc ++ new)
+
+def greach (G : LGraph) (cfg : Cfg) (fuel entry : Nat) : List Key :=
+  let r := (rsucc G cfg entry).eraseDups
+  greachLoop G cfg fuel r r
+
+/-- graph hypotheses under which the free-variable part of `gsucc` is guaranteed: in/out edges
+stay inside one summary, and the tables point at nodes of the right kind. -/
+def intraEdges (G : LGraph) : Bool :=
+  (List.range G.nodes.size).all fun n =>
+    ((G.node n).ins.all fun e => G.graphOf e.1 == G.graphOf n) &&
+    ((G.node n).outs.all fun e => G.graphOf e.1 == G.graphOf n)
+
+def wellKinded (G : LGraph) : Bool :=
+  (List.range G.nodes.size).all fun n =>
+    let nd := G.node n
+    nd.args.all (fun a => G.kind a == .arg) &&
+    nd.calleeParam.all (fun p => match p with | some p => G.kind p == .param | none => true) &&
+    nd.rets.all (fun r => G.kind r == .ret) &&
+    nd.bvs.all (fun b => G.kind b == .boundVar) &&
+    nd.closFvs.all (fun f => match f with | some f => G.kind f == .freeVar | none => true) &&
+    nd.writes.all (fun w => G.kind w == .gwrite)
 
 /-- in-edge index consistency (C17 `inv_index`, F10): every out-edge info `(dst, i)` of a node is
 the one recorded in `dst.In()` for that source. -/
